@@ -1068,3 +1068,51 @@ func ruleR03i(c *Ctx) {
 	}
 	c.floor("R03i", "raw text nodes built by the parser", 3, inParser)
 }
+
+// R03j: the text of a content block ({let}, {param}, {log}) is what the tree walker wrote for it: every
+// returning path of renderBlock has handed the block to the walker. A shortcut that computes the text some
+// other way (the raw string of a lone print, say) skips the print's escaping.
+func ruleR03j(c *Ctx) {
+	p := c.pkg("soyhtml")
+	fd := c.mustFunc("soyhtml", "state.renderBlock")
+	wfd := c.mustFunc("soyhtml", "state.walk")
+	if p == nil || fd == nil || wfd == nil {
+		return
+	}
+	info := p.TypesInfo
+	walkFn := info.Defs[wfd.Name]
+	var nodeParam types.Object
+	for _, fl := range fd.Type.Params.List {
+		for _, nm := range fl.Names {
+			nodeParam = info.Defs[nm]
+		}
+	}
+	nr := newNoRet(c)
+	bad := false
+	var badPos token.Pos
+	res := runFlow(fd.Body, nr.forInfo(info), flowState{"w": 1}, func(n ast.Node, st flowState, report bool) flowState {
+		ast.Inspect(n, func(x ast.Node) bool {
+			if call, ok := x.(*ast.CallExpr); ok && types.Object(calleeFunc(call, info)) == walkFn && len(call.Args) == 1 {
+				if id, ok := ast.Unparen(call.Args[0]).(*ast.Ident); ok && info.Uses[id] == nodeParam {
+					st["w"] = 0
+				}
+			}
+			return true
+		})
+		return st
+	})
+	for _, b := range res.exitBlocks() {
+		if blockEndsInNoReturn(b, nr.forInfo(info)) {
+			continue
+		}
+		if res.out[b]["w"]&1 != 0 {
+			bad = true
+			if len(b.Nodes) > 0 {
+				badPos = b.Nodes[len(b.Nodes)-1].Pos()
+			}
+		}
+	}
+	c.check(!bad, "R03j", "soyhtml.state.renderBlock walks-the-block", fd.Pos(), "every returning path has walked the block",
+		"a path of renderBlock returns without having handed the block to the walker: the text it returns was produced some other way and did not pass the print command's escaping decision")
+	_ = badPos
+}
